@@ -78,7 +78,11 @@ class _ValWorld(World):
 
   def attr(self, it, v, attr, node):
     if tg(v) == 'arr' and attr == 'dtype' and self.sc.get('dt'):
-      return S('dtype', 'f' if _is_f(v[2]) else self.sc['dt'])
+      # points / tuples formed by the preprocessor have the dtype of the
+      # preprocessor's data, not of the indicators
+      own = self.sc.get('pdt', self.sc['dt']) if v[1] in (
+          'points', 'tuples', 'badtuples') else self.sc['dt']
+      return S('dtype', 'f' if _is_f(v[2]) else own)
     if tg(v) == 'dtype' and attr in ('kind', 'char'):
       return v[1] if attr == 'kind' else {'f': 'd', 'i': 'l', 'u': 'L'}[v[1]]
     if tg(v) == 'dtype' and attr == 'type':
@@ -381,6 +385,45 @@ def validated_dtype(repo):
     return 'float', 'converted to floating point on all %d routes' % len(res)
   return 'int', 'the integer dtype of the input is preserved on %d of %d ' \
       'routes' % (res.count(False), len(res))
+
+
+def float_data_recast(repo):
+  """(True | False | None, detail): does `check_input` with default options
+  put floating-point data (formed, or formed by the preprocessor from integer
+  indicators) through a conversion to float64?  It must not: float32 data
+  given as indicators + preprocessor would then be processed in another
+  precision than the same data given formed."""
+  f = repo.get_func('_util.check_input')
+  if f is None:
+    return None, 'function vanished'
+  ps = f.params()
+  for sc in (dict(kind='tuples', ndim=3, pre=False, dt='f'),
+             dict(kind='classic', ndim=2, pre=False, dt='f'),
+             dict(kind='tuples', ndim=2, pre=True, dt='i', pdt='f'),
+             dict(kind='classic', ndim=1, pre=True, dt='i', pdt='f'),
+             dict(kind='tuples', ndim=2, pre=True, dt='u', pdt='f')):
+    sc = dict(sc, y=None, t=2, d=D, tuple_size=None, minf=1, strict='ok')
+    w = _ValWorld(sc)
+    env = dict(input_data=S('in'), y=None,
+               preprocessor=S('pre') if sc['pre'] else None,
+               type_of_inputs=sc['kind'], estimator=S('estimator'))
+    env = dict((k, v) for k, v in env.items() if k in ps)
+    try:
+      it = Interp(repo, f, w)
+      for k, dnode in f.defaults().items():
+        if k not in env:
+          env[k] = it.ev(dnode)
+      out = it.run(env)
+    except Undecided as u:
+      return None, '%s (kind=%s ndim=%s pre=%s)' % (u, sc['kind'],
+                                                     sc['ndim'], sc['pre'])
+    if out[0] != 'return' or tg(out[1]) != 'arr':
+      return None, 'unexpected outcome %r' % (out[:2],)
+    if _is_f(out[1][2]):
+      return True, 'floating-point %s (%s) are converted once more' % (
+          'data formed by the preprocessor from integer indicators'
+          if sc['pre'] else 'formed data', sc['kind'])
+  return False, 'floating-point data are returned in their own precision'
 
 
 def _expected(sc):
